@@ -302,6 +302,101 @@ def pKmz0 : P String := do
   pure (okLine #[kmZ0 FloatFns zm ws us L, kmPhiM FloatFns zm L, kmPhiC FloatFns zm L, kmPsiM FloatFns zm L,
     kmM FloatFns zm ws us L, kmN zm L])
 
+def pInt : P Int := do
+  let t ← tok
+  match t.toInt? with
+  | some v => pure v
+  | none => failure
+
+def pOptInt : P (Option Int) := do
+  let (a, i) ← get
+  if h : i < a.size then
+    if a[i] == "N" then
+      set (a, i + 1)
+      pure none
+    else
+      let x ← pInt
+      pure (some x)
+  else failure
+
+def pMetCfg : P MetCfg := do
+  let us ← pMetVal
+  let mo ← pMetVal
+  let ws ← pMetVal
+  let wd ← pMetVal
+  let z0v ← pMetVal
+  let tsv ← pMetVal
+  let z0 ← match z0v with
+    | .none => pure none
+    | .scalar x => pure (some x)
+    | .list _ => failure
+  let ts ← match tsv with
+    | .none => pure none
+    | .list l => pure (some l)
+    | .scalar _ => failure
+  pure { ustar := us, mol := mo, windSpeed := ws, windDir := wd, z0 := z0, timestamps := ts }
+
+def showLevels : LevelsArg → String
+  | .list ls => "L:" ++ String.intercalate "," (ls.map toString)
+  | .scalar l => s!"S:{l}"
+
+def showTs : Int ⊕ Nat → String
+  | .inl t => s!"t{t}"
+  | .inr k => s!"i{k}"
+
+def showCalls (c : SingleCalls) : String :=
+  let src := match c.idealSource with
+    | some (a, b, x, y, sl, sh) => s!"ideal {a} {b} {x} {y} {showOpt sl} {sh}"
+    | none => "user"
+  s!"wind {showOpt c.windSpeed} {showOpt c.windDir} prof {c.profN} {c.profZm} {showOpt c.profUstar} {showOpt c.profZ0} {showOpt c.profMol} {c.profClosure} src {src} {showOpt c.userFlux} " ++
+  s!"sol {c.solDomain.1} {c.solDomain.2} {showLevels c.solLevels} {c.solModes} {c.solMeasPt.1} {c.solMeasPt.2} {c.solFootprint} {c.solAnalytic} {showOpt c.solHalo} {c.solPrecision} {showOpt c.solCache} " ++
+  s!"lab {c.towerName} {c.towerXY.1} {c.towerXY.2} {showTs c.timestamp} {showOpt c.params.ustar} {showOpt c.params.mol} {showOpt c.params.windSpeed} {showOpt c.params.windDir} {showOpt c.params.z0}"
+
+def pDomSol : P (DomainCfg × SolverCfg) := do
+  let nx ← pInt
+  let ny ← pInt
+  let xmax ← pInt
+  let ymax ← pInt
+  let nz ← pNat
+  let modes ← pInt
+  let halo ← pOptInt
+  let olk ← tok
+  let ol ← (if olk == "N" then pure none
+    else if olk.startsWith "L:" then
+      match parseInts (olk.drop 2).toString with
+      | some l => pure (some (l.map Int.toNat))
+      | none => failure
+    else failure : P (Option (List Nat)))
+  let full ← pBool
+  let closure ← pInt
+  let prec ← pInt
+  let fp ← pBool
+  let an ← pBool
+  let shape ← pInt
+  let srcloc ← pOptInt
+  pure ({ nx := nx, ny := ny, xmax := xmax, ymax := ymax, nz := nz, modes := modes, halo := halo,
+          outputLevels := ol, fullOutput := full },
+        { closure := closure, precision := prec, footprint := fp, analytic := an, shape := shape, srcLoc := srcloc })
+
+def pTower : P TowerCfg := do
+  let name ← pInt
+  let x ← pInt
+  let y ← pInt
+  let zm ← pInt
+  pure { name := name, x := x, y := y, zm := zm }
+
+def pSingle : P String := do
+  let (dom, sol) ← pDomSol
+  let tower ← pTower
+  let met ← pMetCfg
+  let i ← pNat
+  let flux ← pOptInt
+  let cache ← pOptInt
+  pEnd
+  match runSingle dom sol met tower i flux cache with
+  | .error e => pure s!"err {errName e}"
+  | .ok c => pure ("ok " ++ showCalls c)
+
 /-- `cachehist <keyfield bits x12> <resGet> <resPut> <atomic> <guarded> <ndflt> (dom halo)* <nops> ops…`
 ops: `R v0 … v11 hn` request, `C v0 … v11 hn` interrupted store, `X` restart.
 answers one token per request: `H` hit, `M` miss, `E` error; the result is modelled by the
@@ -365,6 +460,7 @@ def dispatch : P String := do
   else if op == "km" then pKm
   else if op == "kmz0" then pKmz0
   else if op == "cachehist" then pCacheHist
+  else if op == "single" then pSingle
   else failure
 
 def handle (line : String) : String :=
